@@ -10,17 +10,15 @@ import (
 const headerKey = "header"
 
 var headerUnmarshaler = mapping.NewUnmarshaler(headerKey, mapping.WithStringValues(),
-	mapping.WithCanonicalKeyFunc(textproto.CanonicalMIMEHeaderKey))
+	mapping.WithCanonicalKeyFunc(textproto.CanonicalMIMEHeaderKey), mapping.WithFromArray())
 
 // ParseHeaders parses the headers request.
 func ParseHeaders(header http.Header, v any) error {
 	m := map[string]any{}
+	// always pass the values as a list (like form values): a slice field takes all of them,
+	// even if there is only one, a scalar field takes the first one.
 	for k, v := range header {
-		if len(v) == 1 {
-			m[k] = v[0]
-		} else {
-			m[k] = v
-		}
+		m[k] = v
 	}
 
 	return headerUnmarshaler.Unmarshal(m, v)
